@@ -48,6 +48,7 @@ type RuleOp struct {
 	Trig   uint32 `json:"trig,omitempty"`
 	Period uint32 `json:"period,omitempty"` // seconds
 	NoMeas bool   `json:"no_meas,omitempty"` // update URR without measurement method/info
+	NoInfo bool   `json:"no_info,omitempty"` // URR without the Measurement Information IE
 }
 
 // Op is one symbolic step of a history.
@@ -179,7 +180,7 @@ func (r RuleOp) IE() *ie.IE {
 			if r.Period != 0 {
 				cs = append(cs, ie.NewMeasurementPeriod(time.Duration(r.Period)*time.Second))
 			}
-			if !r.NoMeas {
+			if !r.NoMeas && !r.NoInfo {
 				var mi uint8
 				if r.MNOP {
 					mi = 0x10
